@@ -159,3 +159,66 @@ Example C06_ex_hypotheses :
   List.length (filter (fun e => match e with Consume => true | _ => false end) (run_case ex_case)) = 12%nat /\
   oracle_turns ex_case (run_case ex_case) = true.
 Proof. vm_compute. repeat split. do 3 eexists. split; reflexivity. Qed.
+
+(* "exactly one ReadyForQuery per Sync", as a statement over the whole connection: for every scriptable case whose
+   handlers use no COPY and every client byte stream — well-formed, malformed, oversized, truncated messages in any
+   order — the turn of every Sync message the connection gets to holds exactly one ReadyForQuery. First for every
+   log the executable oracle accepts (hence for logs observed on the implementation in lock-step), then for the model. *)
+Require Import Spec.OracleFactsSyncs.
+
+Theorem C06_accepted_logs_one_ready_per_sync : forall sc log st ts,
+  oracle_turns sc log = true -> t_copy (turn_verdict sc log) = false -> turns log = st :: ts ->
+  forall i f t, nth_error (client_frames sc) i = Some f -> nth_error ts i = Some t -> is_sync_frame f = true ->
+  readies t = 1%nat.
+Proof. exact oracle_turns_one_ready_per_sync. Qed.
+Print Assumptions C06_accepted_logs_one_ready_per_sync.
+
+Theorem C06_one_ready_per_sync : forall sc st ts,
+  case_nocopy sc = true ->
+  (forall v after rest, start (cfg_of_case sc) (sc_raw sc) = Some (v, after, rest) -> v <> version_ssl) ->
+  turns (run_case sc) = st :: ts ->
+  forall i f t, nth_error (client_frames sc) i = Some f -> nth_error ts i = Some t -> is_sync_frame f = true ->
+  readies t = 1%nat.
+Proof. exact model_one_ready_per_sync. Qed.
+Print Assumptions C06_one_ready_per_sync.
+
+(* non-vacuity: in the example case above the frames 3 and 7 are Syncs that the connection gets to *)
+Example C06_ex_syncs :
+  let ts := tl (turns (run_case ex_case)) in
+  option_map is_sync_frame (nth_error (client_frames ex_case) 3) = Some true /\
+  option_map readies (nth_error ts 3) = Some 1%nat /\
+  option_map is_sync_frame (nth_error (client_frames ex_case) 7) = Some true /\
+  option_map readies (nth_error ts 7) = Some 1%nat.
+Proof. vm_compute. repeat split. Qed.
+
+(* ... and "never a ReadyForQuery for the other extended-query messages": the turn of every Parse, Bind, Describe,
+   Execute, Close and Flush message with a well-formed body, and of every rejected (oversized / too short) message of
+   one of these types, holds no ReadyForQuery — whatever the state (skipping or not), for every log the oracle
+   accepts and for the model on every byte stream *)
+Theorem C06_accepted_logs_no_ready_for_extended : forall sc log st ts,
+  oracle_turns sc log = true -> t_copy (turn_verdict sc log) = false -> turns log = st :: ts ->
+  forall i f t, nth_error (client_frames sc) i = Some f -> nth_error ts i = Some t -> ext_frame f = true ->
+  readies t = 0%nat.
+Proof. exact oracle_turns_no_ready_for_extended. Qed.
+Print Assumptions C06_accepted_logs_no_ready_for_extended.
+
+Theorem C06_no_ready_for_extended : forall sc st ts,
+  case_nocopy sc = true ->
+  (forall v after rest, start (cfg_of_case sc) (sc_raw sc) = Some (v, after, rest) -> v <> version_ssl) ->
+  turns (run_case sc) = st :: ts ->
+  forall i f t, nth_error (client_frames sc) i = Some f -> nth_error ts i = Some t -> ext_frame f = true ->
+  readies t = 0%nat.
+Proof. exact model_no_ready_for_extended. Qed.
+Print Assumptions C06_no_ready_for_extended.
+
+(* non-vacuity: frames 0 (a failing Parse), 1 (a skipped Bind) and 6 (an Execute that returns a row) of the example *)
+Example C06_ex_extended :
+  let ts := tl (turns (run_case ex_case)) in
+  option_map ext_frame (nth_error (client_frames ex_case) 0) = Some true /\
+  option_map readies (nth_error ts 0) = Some 0%nat /\
+  option_map ext_frame (nth_error (client_frames ex_case) 1) = Some true /\
+  option_map readies (nth_error ts 1) = Some 0%nat /\
+  option_map ext_frame (nth_error (client_frames ex_case) 6) = Some true /\
+  option_map readies (nth_error ts 6) = Some 0%nat /\
+  option_map (fun t => List.length (outs t)) (nth_error ts 6) = Some 2%nat.
+Proof. vm_compute. repeat split. Qed.
